@@ -681,7 +681,7 @@ impl Prop for C08 {
         }
         v.push(json!({"kind": "req_failed_send"}));
         for n in 1..=8usize {
-            for k in 0..tier.pick(100, 1000) {
+            for k in 0..tier.pick(100, 20_000) {
                 v.push(json!({"kind": "concurrent", "clients": n, "per": 4, "seed": mix(seed ^ (k as u64) << 8 ^ n as u64)}));
             }
         }
